@@ -214,6 +214,7 @@ type c12Req struct {
 	disable bool
 	forged  bool
 	gen     uint32
+	src     string // registration_source the client put into its own message ("" = none, as stock clients do)
 }
 
 func c12Requests(thorough bool) []c12Req {
@@ -241,7 +242,13 @@ func c12Requests(thorough bool) []c12Req {
 			for _, dis := range []bool{false, true} {
 				for _, forged := range []bool{false, true} {
 					for _, gen := range []uint32{1, 2} {
-						out = append(out, c12Req{fmt.Sprintf("%s;v4=%v;v6=%v;disable=%v;forged=%v;gen=%d", t.n, fam[0], fam[1], dis, forged, gen), t.tt, t.p, fam[0], fam[1], dis, forged, gen})
+						out = append(out, c12Req{fmt.Sprintf("%s;v4=%v;v6=%v;disable=%v;forged=%v;gen=%d", t.n, fam[0], fam[1], dis, forged, gen), t.tt, t.p, fam[0], fam[1], dis, forged, gen, ""})
+						if !forged && gen == 1 {
+							// a client that fills in registration_source itself (the registrar only sets it when unspecified)
+							for _, src := range []string{"API", "Detector", "DNS"} {
+								out = append(out, c12Req{fmt.Sprintf("%s;v4=%v;v6=%v;disable=%v;forged=%v;gen=%d;client-source=%s", t.n, fam[0], fam[1], dis, forged, gen, src), t.tt, t.p, fam[0], fam[1], dis, forged, gen, src})
+							}
+						}
 					}
 				}
 			}
@@ -375,6 +382,10 @@ func c12One(e *venum.E, cfg c12Cfg, ci int, rq c12Req, env *c12Env, sel *phantom
 	m := vfix.Msg{Secret: vfix.Secret(40 + ci%3), Transport: rq.tt, Params: rq.params, V4: rq.v4, V6: rq.v6, Gen: rq.gen, LibVer: 4, Covert: "93.184.216.34:443", Source: pb.RegistrationSource_Unspecified}
 	w := m.Wrapper()
 	w.RegistrationSource = nil
+	if rq.src != "" {
+		cs := pb.RegistrationSource(pb.RegistrationSource_value[rq.src])
+		w.RegistrationSource = &cs
+	}
 	w.RegistrationPayload.DisableRegistrarOverrides = proto.Bool(rq.disable)
 	origParams := proto.Clone(w.RegistrationPayload).(*pb.ClientToStation).GetTransportParams()
 	if rq.forged {
